@@ -288,6 +288,68 @@ def q_wire(scheme, port, with_opts):
     cover("wire")
 
 
+def q_reuse(header_kind):
+    """two requests built from the SAME option objects (header list / dict, subprotocol list): the second is identical to the
+    first except for a fresh key, and the caller's objects are not modified"""
+    quiet_logging()
+    import copy
+    import http.cookies
+    import websocket._handshake as HS
+    HS.CookieJar.jar.clear()
+    host = sx.sym_str("host", 2)
+    _no_crlf(host)
+    sx.assume(sx.Not(sx.contains(host, ":")))
+    cookie = sx.sym_str("cookie", 2)
+    _no_crlf(cookie)
+    hv = sx.sym_str("hv", 2)
+    _no_crlf(hv)
+    if header_kind == "list":
+        header = ["X-A: " + hv, "X-B: 2"]
+    elif header_kind == "dict":
+        header = {"X-A": hv, "X-B": None}
+    else:
+        header = None
+    subs = ["a", "b"]
+    options = {"header": header, "cookie": cookie, "subprotocols": subs, "origin": "http://o"}
+    if header is None:
+        del options["header"]
+    HS.CookieJar.jar["." + host.lower()] = http.cookies.SimpleCookie("s=1")
+    snap_header = copy.copy(header)
+    snap_subs = list(subs)
+    real_os = HS.os._real if isinstance(HS.os, FakeOs) else HS.os
+    pool = [bytes(range(16)), bytes(range(16, 32)), bytes(range(32, 48))]
+    draws = []
+
+    def urandom(n):
+        draws.append(n)
+        return pool.pop(0)
+    HS.os = FakeOs(real_os, urandom)
+    try:
+        h1, k1 = HS._get_handshake_headers("/r", "ws://x/", host, 8080, options)
+        h2, k2 = HS._get_handshake_headers("/r", "ws://x/", host, 8080, options)
+        h3, k3 = HS._get_handshake_headers("/r", "ws://x/", host, 8080, options)
+    finally:
+        HS.os = real_os
+        HS.CookieJar.jar.clear()
+    sx.require(draws == [16, 16, 16], "every request draws its own 16 random bytes")
+    sx.require(k1 != k2 and k2 != k3, "successive requests carry fresh keys")
+
+    def strip(h):
+        return [l for l in h if not (isinstance(l, str) and l.startswith("Sec-WebSocket-Key: "))]
+    for later, nm in ((h2, "second"), (h3, "third")):
+        a, b = strip(h1), strip(later)
+        sx.require(len(a) == len(b), "the %s request built from the same options has the same lines as the first (nothing accumulates)" % nm,
+                   first=len(a), later=len(b), header_kind=header_kind)
+        for x, y in zip(a, b):
+            sx.require(x == y, "the %s request equals the first apart from the key" % nm, header_kind=header_kind)
+    ck = [l for l in h3 if isinstance(l, (str, sx.SymStr)) and l.startswith("Cookie: ")]
+    sx.require(len(ck) == 1, "exactly one Cookie header", got=len(ck), header_kind=header_kind)
+    if header is not None:
+        sx.require(len(header) == len(snap_header), "the caller's header option is not modified", header_kind=header_kind)
+    sx.require(subs == snap_subs, "the caller's subprotocol list is not modified")
+    cover("reuse")
+
+
 URL_HOSTS = (("h.example", "h.example"), ("10.1.2.3", "10.1.2.3"), ("[2001:db8::1]", "[2001:db8::1]"), ("H.Example", "h.example"))
 URL_PORTS = ("", ":80", ":443", ":8080")
 URL_PATHS = ("", "/", "/a/b")
@@ -356,6 +418,9 @@ def obligations(tier):
                    bounds="URL catalogue: scheme x host form (name, IPv4, bracketed IPv6, upper-case) x port (none, 80, 443, 8080) x path x query, full product, "
                           "through create_connection on the fake network", must_cover=["url"], step_budget=100000,
                    kernel=["_url.parse_url", "_http.connect", "_handshake.handshake", "_get_handshake_headers"]),
+        Obligation("Q-reuse", q_reuse, [dict(header_kind=k) for k in ("list", "dict", "none")],
+                   bounds="three successive requests from the same option objects (header list / dict / none, subprotocol list, cookie, jar cookie); host, "
+                          "cookie and header value symbolic", must_cover=["reuse"], kernel=["_handshake._get_handshake_headers"]),
         Obligation("Q-key", q_key, [{}], bounds="all 2^128 values of the 16 random bytes (symbolic), two successive requests", must_cover=["key"],
                    solver_timeout_ms=120000, kernel=["_create_sec_websocket_key", "_get_handshake_headers"]),
         Obligation("Q-wire", q_wire, [dict(scheme=s, port=p, with_opts=w) for s in ("ws", "wss") for p in (80, 443, 8443) for w in (False, True)],
